@@ -2,7 +2,7 @@ CONSTANTS
   K = 5
   W = 4096
   Menus <- MenusFF
-  Inits = "full"
+  Inits = "small"
   Family = "group"
 INIT Init
 NEXT Next
